@@ -4,16 +4,21 @@ translate:   translator/extract_config.py → Generated/ConfigTables.lean (_BOOL
              the regex of _replace, the exception classes `get` catches, key_width default)
 prove:       lean/Midgard/Props/C19.lean about lean/Midgard/Model/Config.lean
 correspond:  histories of update / update_from_dict / _options / _config_section / _file / profiles /
-             master_section / fallback / update_vars on two real Configuration objects versus the
-             compiled model; after the steps a battery of get / [] / exists / sources / view / as_str /
-             write_to_file+read_from_file observations; typed accessors and entry.replace on grammar values;
+             master_section / fallback links / update_vars on three real Configuration objects (main -> fb -> fb2)
+             versus the compiled model; files with DEFAULT / __replace__ / __vars__ sections; after the steps a battery
+             of get / [] / exists / sources / view / as_str / write_to_file+read_from_file observations and of looks
+             (ops G, I) at the entry handed back: .str, .source, whose variable dictionary it holds, .replaced,
+             .replace(), typed accessors of the replaced entry; typed accessors and entry.replace on grammar values;
              configurations aimed at the text form (theorem text_roundtrip: op `w` = asStr against as_str character
              for character, op `r` = Cfg.updateFromText against ConfigParser+update_from_file on the written file
              incl. the per-profile store, op `t` = the theorem's hypothesis WfText against the oracle's wf_text)
 oracle:      a reference store {profile: {section: {key: value}}} kept by the harness states the
              property directly: override → first listed profile → profile-less → fallback → default →
              MissingSection/MissingEntry error; master when no section; accessors vs re.split / the eight
-             spellings / int(); replace touches known variables only; written file reads back to the view
+             spellings / int(); replace touches known variables only; an answer is filled in from the variables of the
+             configuration it belongs to (asked configuration for own entry / override / default, the defining fallback
+             otherwise) — by reference substitution and, without it, against a configuration with the same variables
+             and no fallback / the fallback asked itself; written file reads back to the view
 """
 from __future__ import annotations
 
@@ -466,6 +471,13 @@ def ref_apply(w: World, op: dict, obs: str, rep, step):
             sec = op.get("sec") or op["fromsec"]
             ups = [(sec, k, e[0], None, e[1], e[2], None) for k, e in osec.items()]
         elif t == "F":
+            # the `__vars__` section is applied first, whatever happens to the entries; a variable set to None (a key
+            # without value) is unknown from then on
+            for k, v in op.get("filevars") or []:
+                if v is None:
+                    ref.vars.pop(k, None)
+                else:
+                    ref.vars[k] = v
             ups = [(s, k, v, p, op["_path"], m, None) for (s, k, v, p, m) in op["entries"]]
         else:
             for opt in op["options"]:
@@ -937,6 +949,10 @@ def run_history(ctx, drv, hist, tmp):
             count_text(ctx, op["_written"], op["width"])
         if op["op"] == "t" and ctx is not None:
             ctx.count("wf-text=" + obs)
+        if op["op"] == "F" and ctx is not None:
+            for name in ("DEFAULT", "__replace__", "__vars__"):
+                if f"[{name}]" in op["text"]:
+                    ctx.count(f"file:[{name}]" + ("" if obs == "ok" else ":" + obs))
         if rep.diverged:
             pass  # the reference store no longer describes the real objects: correspondence only
         elif op["op"] in MUTATING:
@@ -971,6 +987,8 @@ def run_history(ctx, drv, hist, tmp):
             for step, (m, r) in enumerate(zip(model, obss)):
                 if m == "unsupported-spec":
                     rep.count("model:unsupported-format-spec")
+                    if hist[step]["op"] == "F":
+                        break  # the model stopped inside the file: the states differ from here on
                     continue
                 if "unsupported-spec" in m:
                     # G / I: a format spec outside the modelled subset in .replaced / .replace(): the lookup part
@@ -1103,49 +1121,108 @@ def gen_meta(rng):
     return m or None
 
 
-def gen_file(rng):
-    """a configuration file: text + the entries it defines (section, key, value, profile, meta) in file order"""
+REPLACE_TABLE = {"sta": "zimm", "n": "1", "nestr": "<{sta}>", "yy": "19"}
+
+
+def gen_file(rng, extras=None):
+    """a configuration file: text + the entries it defines (section, key, value, profile, meta) in file order + the
+    variables its `__vars__` section sets.  `extras`: with a `[DEFAULT]` section (its options are seen in every other
+    section that does not define them, the special ones included), a `[__replace__]` section (a table applied to keys and
+    values of the file) and a `[__vars__]` section (added to the variables of the configuration)"""
+    if extras is None:
+        extras = rng.random() < 0.3
     lines, entries = [], []
     secs = rng.sample([(s, p) for s in SECTIONS for p in [None] + PROFILES], rng.randint(1, 3))
     case_sensitive = rng.random() < 0.25
+    fold = (lambda x: x) if case_sensitive else (lambda x: x.lower())
+    defaults, table, filevars = [], {}, []
+    blocks = []  # (header, lines, own keys, entries) per block, shuffled into the file afterwards
+    if extras and rng.random() < 0.6:
+        for k in rng.sample(["dk", "k3", "K2", "unit"], rng.randint(1, 2)):
+            defaults.append((fold(k), rng.choice(["m", "from default", "0"])))
+        blocks.append(("[DEFAULT]", [f"{k} = {v}" for k, v in defaults], None))
+    if extras and rng.random() < 0.6:
+        names = rng.sample(sorted(REPLACE_TABLE), rng.randint(1, 3))
+        if "nestr" in names and "sta" not in names:
+            names.append("sta")
+        table = {k: REPLACE_TABLE[k] for k in names}
+        blocks.append(("[__replace__]", [f"{k} = {v}" for k, v in table.items()], None))
+    if extras and rng.random() < 0.7:
+        fv = gen_vars(rng, rng.choice([0, 1, 2]))
+        ls = [f"{k} = {v}" for k, v in fv.items()]
+        filevars = [(k, str(v)) for k, v in fv.items()]
+        if rng.random() < 0.15:
+            nv = rng.choice([k for k in sorted(VARS) if k not in fv])
+            ls.append(nv)
+            filevars.append((nv, None))
+        blocks.append(("[__vars__]", ls, None))
+
+    def subst(t):
+        for _ in range(3):
+            for k, v in list(table.items()) + [d for d in defaults if table]:
+                t = t.replace("{" + k + "}", v)
+        return t
+
     if rng.random() < 0.3:
         lines.append("# a comment line")
     for s, p in secs:
-        lines.append(f"[{s}]" if p is None else f"[{s}__{p}]")
+        blines, bentries, own = [], [], set()
         for k in rng.sample(KEYS, rng.randint(1, 3)):
             kk = k.upper() if rng.random() < 0.2 else k
+            if table and "n" in table and k == "k1" and rng.random() < 0.5:
+                kk = "k{n}"
             v = gen_value(rng, long_ok=False).replace("\n", " ").replace("%", "").strip()
             if v[:1] in "#;":
                 v = "x" + v
+            if table and rng.random() < 0.7:
+                v = (v + " " + rng.choice(["{sta}", "{nestr}", "/d/{yy}/{sta}.txt", "{sta}{unknown}"])).strip()
             pad = " " * rng.choice([0, 1, 10])
             noval = rng.random() < 0.05
             if noval:
-                lines.append(kk)
+                blines.append(kk)
                 val = "None"
             elif rng.random() < 0.15 and " " in v and v.partition(" ")[2].strip()[:1] not in "#;":
                 a, _, b = v.partition(" ")
-                lines.append(f"{kk}{pad} = {a}")
-                lines.append(f"      {b.strip()}")
+                blines.append(f"{kk}{pad} = {a}")
+                blines.append(f"      {b.strip()}")
                 val = a + " " + b.strip() if b.strip() else a
             else:
-                lines.append(f"{kk}{pad} ={' ' if rng.random() < 0.8 else ''}{v}")
+                blines.append(f"{kk}{pad} ={' ' if rng.random() < 0.8 else ''}{v}")
                 val = v
             meta = {}
             if rng.random() < 0.3:
                 meta["help"] = rng.choice(["How to foodazzle", "x y z"])
-                lines.append(f"{kk}:help{pad} = {meta['help']}")
+                blines.append(f"{kk}:help{pad} = {meta['help']}")
             if rng.random() < 0.1:
                 meta["flag"] = None
-                lines.append(f"{kk}:flag")
-            key = kk if case_sensitive else kk.lower()
-            mk = {(a if case_sensitive else a.lower()): b for a, b in meta.items()}
-            entries.append((s, key, " ".join(val.split("\n")), p, mk))
+                blines.append(f"{kk}:flag")
+            key = fold(kk)
+            own.add(key)
+            mk = {fold(a): b for a, b in meta.items()}
+            bentries.append((s, subst(key), " ".join(subst(val if not noval else "None").split("\n")) if not noval else "None", p, mk))
             if rng.random() < 0.3:
-                lines.append("")
+                blines.append("")
             if rng.random() < 0.1:
-                lines.append("; another comment")
-        lines.append("")
-    return "\n".join(lines) + "\n", entries, case_sensitive
+                blines.append("; another comment")
+        blines.append("")
+        blocks.append((f"[{s}]" if p is None else f"[{s}__{p}]", blines, (s, p, own, bentries)))
+    if extras:
+        rng.shuffle(blocks)
+    else:
+        blocks.sort(key=lambda b: b[2] is None)
+    for header, blines, info in blocks:
+        lines.append(header)
+        lines += blines
+        if info is not None:
+            s_, p_, own, bentries = info
+            entries += bentries
+            # the options of [DEFAULT] the section does not define itself, after its own
+            entries += [(s_, subst(k), subst(v), p_, {}) for k, v in defaults if k not in own]
+    # the special sections see the [DEFAULT] options too
+    seen = {k for k, _ in filevars}
+    if any(b[0] == "[__vars__]" for b in blocks):
+        filevars += [(k, v) for k, v in defaults if k not in seen]
+    return "\n".join(lines) + "\n", entries, case_sensitive, filevars
 
 
 def gen_mut(rng):
@@ -1180,8 +1257,8 @@ def gen_mut(rng):
         return {"op": "S", "cfg": i, "from": rng.choice([0, 1, 2]), "fromsec": rng.choice(SECTIONS), "sec": rng.choice([None, "s1", "s2"]),
                 "allow_new": allow_new}
     if k < 0.74:
-        text, entries, cs = gen_file(rng)
-        return {"op": "F", "cfg": i, "allow_new": allow_new, "case_sensitive": cs, "text": text, "entries": entries}
+        text, entries, cs, filevars = gen_file(rng)
+        return {"op": "F", "cfg": i, "allow_new": allow_new, "case_sensitive": cs, "text": text, "entries": entries, "filevars": filevars}
     if k < 0.88:
         r = rng.random()
         if r < 0.1:
@@ -1419,12 +1496,19 @@ ODD_FILES = [
     "[s1]\nk1 = a\nk1 = b\n", "[s1]\nk1 = a\nK1 = b\n", "k1 = a\n", "[s1]\n= a\n", "[s1] \nk1 = a\n", "  [s1]\n  k1 = a\n    b\n",
     "[s1]\nk1:help = h\nk1 = a\nk1:flag\n", "[s1__p1]\nk1 = a\n[s1]\nk1 = b\n", "[__x]\nk1 = a\n[s1]\nk2 = b\n",
     "[s1]\nk1 = a\n\n[s2]\n\nk2 = b\n\n", "[s1]\nk1 = [a]\n  [b]\n", "[s1]\nk1 = a\n [s2]\nk2 = b\n",
+    # the DEFAULT section and the special sections __replace__ / __vars__
+    "[DEFAULT]\nk1 = d\n[s1]\nk2 = a\n", "[s1]\nk1 = a\n[DEFAULT]\nk1 = d\nk9 = e\n[s2]\nk2 = b\n",
+    "[__replace__]\na = {b}\nb = {a}\n[s1]\nk2 = fine\nk1 = {a}\nk3 = never\n", "[__vars__]\nv\nw = 1\n[s1]\nk1 = {v}{w}\n",
+    "[__replace__]\nx = 1\n[s1]\nk{x} = {x}{y}\nk{x}:help = {x}\n", "[__replace__]\nw = a\n  b\n[s1]\nk1 = {w} c\n",
+    "[DEFAULT]\nk1:help = dh\n[s1]\nk1 = a\n[s2]\nk2 = b\n", "[__vars__]\nroot = /x\n[DEFAULT]\nunit = m\n[s1]\nk1 = a\n",
+    "[__replace__]\nx\ny = 2\n[s1]\nk1 = {x}{y}\n", "[DEFAULT]\nd = 0\n[__replace__]\nx = {d}{d}\n[s1__p1]\nk1 = {x}\n",
+    "[__vars__]\nA = 1\n[s1]\nK1 = {A}\n", "[__x__]\nk1 = a\n[__replace__]\n[s1]\nk1 = {k1}\n",
 ]
 
 
 def gen_odd_history(rng):
     hist = []
-    for text in rng.sample(ODD_FILES, 3):
+    for text in rng.sample(ODD_FILES, 4):
         hist.append({"op": "F", "cfg": 0, "allow_new": True, "case_sensitive": rng.random() < 0.3, "text": text, "entries": [],
                      "corr_only": True})
         hist.append({"op": "v", "cfg": 0})
@@ -1467,7 +1551,7 @@ def run(ctx: Ctx):
                     "(update of (s1,k1) in no profile/p1/p2, of (s1,k2), of (s2,k1)@p1, five profile selections, two "
                     "updates of the fallback configuration, link fallback, set master) followed by 31 observations; "
                     "(b) random histories of 1..30 mutating steps over update / update_from_dict / _options / "
-                    "_config_section / _file / profiles / master / fallback / update_vars on two configurations, "
+                    "_config_section / _file / profiles / master / fallback links / update_vars on three configurations, "
                     "2 sections x 3 keys x 3 profiles, values from a grammar of words, numbers, booleans, lists, paths, "
                     "{var} references, long lists and odd blanks, allow_new on/off, metadata; ~12 observations after every "
                     "step, WfText, as_str and write_to_file+read_from_file at two widths at the end; (b2) configurations "
@@ -1478,13 +1562,19 @@ def run(ctx: Ctx):
                     "WfText, as_str, write+read at three widths out of 36/45/60/80/200/w+1/w-1 (text:* counts say what the "
                     "written files contained); hand-written corner files of the ConfigParser subset (model against code "
                     "only); (c) accessor / replace cases on grammar values, variables with empty / 0 / False values, with "
-                    "and without default. Non-trivial: the history has a profile change or a fallback or an "
+                    "and without default; (d) variables along the fallback chain: three configurations main -> fb -> fb2 with "
+                    "their own values for shared variable names, entries with {var} references at every depth, cfg.get / "
+                    "cfg[section][key] for own / fallback / fallback-of-fallback / default / override answers looked at through "
+                    ".str, .source, the variable dictionary held, .replaced, .replace(default, **vars) and the typed accessors "
+                    "of the replaced entry, repeated after the variables changed (the same looks are part of the batteries "
+                    "of (a) and (b); 30 % of the files of (b) have DEFAULT / __replace__ / __vars__ sections). "
+                    "Non-trivial: the history has a profile change or a fallback or an "
                     "allow_new=False update; distinct by canonical JSON")
         ctx.trusted += ["configparser, textwrap.fill and str.format are modelled on the subsets the generators reach "
                         "(ASCII, no tabs, no '%', specs [[fill]align][width])",
                         "the reference store of the oracle (harness/c19.py: Ref) as the statement of the lookup order"]
-        ctx.assumptions += ["values are ASCII; no '%' in values and no section called DEFAULT (ConfigParser interpolation and "
-                            "default section are not modelled)",
+        ctx.assumptions += ["values are ASCII; no '%' in values (ConfigParser interpolation is not modelled); at most one [DEFAULT] "
+                            "header per file; a variable set to None by a valueless key of __vars__ counts as unknown",
                             "text round trip is required for the configurations of wf_text (= WfText of the theorem "
                             "text_roundtrip, compared on every generated configuration): words separated by single blanks, no "
                             "word starting with '#' or ';', lower-case keys without blank/'='/':' that fit the line with the "
